@@ -317,11 +317,15 @@ def run_rewrap(case, ctx, rng, vs):
         if n >= 1 and rng.random() < 0.5:
             # one column is re-declared afterwards (an element of P.variables is replaced: tightened bounds / renamed): A, to_linalg and what
             # they construct are about the columns as they are declared now
+            ctx.call("boolean_variable_indices", lambda: P.boolean_variable_indices)       # asked on this very object before ...
+            ctx.call("integer_variable_indices", lambda: P.integer_variable_indices)
             j = rng.randrange(1, n + 1)
             old_v = P.variables[j]
             lo_, hi_ = old_v.bounds.as_tuple()
             P.variables[j] = rng.choice([lambda: puan.variable(old_v.id, bounds=(lo_ + (hi_ > lo_), hi_)), lambda: puan.variable(str(old_v.id) + "'", bounds=(lo_, hi_)),
-                                         lambda: puan.variable(old_v.id, bounds=(hi_, hi_))])()
+                                         lambda: puan.variable(old_v.id, bounds=(hi_, hi_)), lambda: puan.variable(old_v.id, bounds=(0, 1) if (lo_, hi_) != (0, 1) else (0, 5))])()
+            ctx.call("boolean_variable_indices", lambda: P.boolean_variable_indices)       # ... and after the column was re-declared
+            ctx.call("integer_variable_indices", lambda: P.integer_variable_indices)
             ctx.count("count:column-redeclared-in-place")
             ctx.call("A", lambda: P.A)
             ctx.call("to_linalg", P.to_linalg)
